@@ -364,8 +364,8 @@ def module_state_rule(repo, modshort, rule="STATE"):
             while st is not None and not isinstance(st, ast.stmt):
                 st = pm.get(st)
             if isinstance(st, ast.Assign):
-                kdeps = _param_deps(f, p.slice)
-                vdeps = _param_deps(f, st.value)
+                kdeps = _param_deps(f, p.slice, at=st.lineno)
+                vdeps = _param_deps(f, st.value, at=st.lineno)
                 ktext = _slice_text(f, p.slice)
                 missing = sorted(vdeps - kdeps)
                 if missing:
@@ -429,35 +429,49 @@ def _slice_text(f, e):
     return unparse(T().visit(copy.deepcopy(e)))
 
 
-def _param_deps(f, e, _seen=None):
-    """parameters an expression depends on (variable-level backward slice through the function's assignments)"""
-    seen = set() if _seen is None else _seen
-    deps = set()
-    todo = [n.id for n in ast.walk(e) if isinstance(n, ast.Name)]
+def _param_deps(f, e, _seen=None, at=None):
+    """parameters an expression depends on: backward slice through the function's assignments.  Flow-sensitive for straight-line code: a
+    name read at line `at` is resolved to the definitions textually before it, and an unconditional top-level assignment kills the
+    earlier ones (so `k = digest(x); x = g(x, eps); cache[k] = h(x)` gives k a dependence on the OLD x only)."""
+    top = set(id(s) for s in f.node.body)
     defs = {}
     for s in walk_no_nested(f.node):
         if isinstance(s, ast.Assign):
             for t in s.targets:
                 for x in ast.walk(t):
                     if isinstance(x, ast.Name) and isinstance(x.ctx, ast.Store):
-                        defs.setdefault(x.id, []).append(s.value)
+                        defs.setdefault(x.id, []).append((s.lineno, s.value, id(s) in top))
         elif isinstance(s, ast.AugAssign) and isinstance(s.target, ast.Name):
-            defs.setdefault(s.target.id, []).append(s.value)
+            defs.setdefault(s.target.id, []).append((s.lineno, ast.BinOp(left=ast.Name(id=s.target.id, ctx=ast.Load()), op=s.op, right=s.value), False))
         elif isinstance(s, (ast.For, ast.comprehension)):
             for x in ast.walk(s.target):
                 if isinstance(x, ast.Name):
-                    defs.setdefault(x.id, []).append(s.iter)
-    while todo:
-        v = todo.pop()
-        if v in seen:
-            continue
-        seen.add(v)
-        if v in f.params:
-            deps.add(v)
-        for d in defs.get(v, []):
-            for n in ast.walk(d):
-                if isinstance(n, ast.Name) and n.id not in seen:
-                    todo.append(n.id)
+                    defs.setdefault(x.id, []).append((getattr(s, "lineno", 0), s.iter, False))
+    deps = set()
+    seen = set()
+
+    def visit(expr, pos):
+        for n in ast.walk(expr):
+            if not isinstance(n, ast.Name) or not isinstance(n.ctx, ast.Load):
+                continue
+            v = n.id
+            here = pos if pos is not None else getattr(n, "lineno", None)
+            cands = sorted([d for d in defs.get(v, []) if here is None or d[0] < here], key=lambda d: d[0])
+            if here is not None and not cands and v in defs and v not in f.params:
+                cands = sorted(defs[v], key=lambda d: d[0])       # defined later only (loop-carried): keep everything
+            kill = [k for k, d in enumerate(cands) if d[2]]
+            is_param_live = v in f.params and not kill
+            if kill:
+                cands = cands[kill[-1]:]
+            if v in f.params and (is_param_live or not cands):
+                deps.add(v)
+            for ln, val, _ in cands:
+                key = (v, ln)
+                if key in seen:
+                    continue
+                seen.add(key)
+                visit(val, ln)
+    visit(e, at)
     return deps
 
 
